@@ -216,12 +216,16 @@ def tasks_for(tier):
     base = seed() * 86028121
     out = []
     flagsets = [{}, {'skip_deduplication': True}, {'skip_compositions': True}, {'skip_geomcomp': True, 'skip_boundary_conditions': True},
-                {'always_inline_filling': True, 'always_inline_filled': True}, {'always_inline_filling': True}]
+                {'always_inline_filling': True, 'always_inline_filled': True}, {'always_inline_filling': True},
+                {'max_inline_score': 0.0}, {'max_inline_score': 100.0}]
     n = 8 if tier == 'quick' else 200
     for i in range(n):
         fl = flagsets[i % len(flagsets)]
         out.append(('deck', 'c01', (base + i, 2 + i % 3, 2 + i % 3, 1 + i % 4), fl))
         out.append(('deck', 'c05', (base + i, 1 + i % 2, i % 3 == 0, c05.SPELL[i % len(c05.SPELL)], ['slab', 'two', 'sphere'][i % 3]), fl))
+        # universes with a patently empty filler cell, never / always inlined
+        out.append(('deck', 'c05', (base + 500 + i, 1 + i % 2, i % 2 == 0, c05.SPELL[(i // 2) % len(c05.SPELL)], ['slab', 'two'][i % 2], True),
+                    [{'max_inline_score': 0.0}, {}, {'always_inline_filled': True}, {'max_inline_score': 0.0, 'skip_deduplication': True}][i % 4]))
         out.append(('deck', 'c15', (base + i, c15.SCEN[i % len(c15.SCEN)]), fl))
         out.append(('deck', 'c16', (base + i, 2 + i % 2, 2 + i % 2, ['dedup', 'nodedup', 'unused'][i % 3]), fl))
     nchunks = 16 if tier == 'quick' else 64
@@ -237,10 +241,10 @@ def run(tier):
     tasks = tasks_for(tier)
     for r in run_pool(worker, tasks):
         rep.merge(r)
-    rep.explanation = ('(a) structural validation of every text written on every feasible path of symbolic runs over four deck families and six '
+    rep.explanation = ('(a) structural validation of every text written on every feasible path of symbolic runs over four deck families and eight '
                        'switch combinations; (b) one-step check of the pruning functions from generated volume tables with z3 deciding region '
                        'preservation over one Boolean sense per surface.')
-    rep.bounds = {'tasks': len(tasks), 'prune_tables': '<= 4 volumes, 2 surfaces + 2 helper planes', 'outside': ['--cache pickles', 'decks outside the four families']}
+    rep.bounds = {'tasks': len(tasks), 'prune_tables': '<= 4 volumes, 2 surfaces + 2 helper planes', 'outside': ['--cache pickles', 'decks outside the four families'], 'switch_sets': 8}
     rep.assumptions = ['T4 input syntax as written by the converter itself (vt/sem/t4.py parser)', 'known finding F2 of C16 (dangling boundary-condition ids) also violates this property']
     rep.cov['rule'] = 'case = written file (a) or volume table (b); distinct = distinct (deck, path condition) / distinct tables'
     return rep.finish()
